@@ -12,15 +12,24 @@ import (
 
 // C07 — errors from user functions are returned, never swallowed or outrun.
 
-const c07Decls = `type N struct {
+const c07Decls = `type L1 struct{ V int }
+
+type L2 struct {
+	V int
+	W int
+}
+
+type N struct {
 	A int
 	B int
+	L L1
 }
 
 type N2 struct {
 	A int
 	B int
 	C int
+	L L2
 }
 
 type S struct {
@@ -74,25 +83,43 @@ func NC2(i int) (int, error) {
 	return i + 4, nil
 }
 
+func NNC(i int) (int, error) {
+	if err := tr.HitErr("nnconv1"); err != nil {
+		return 0, err
+	}
+	return i + 5, nil
+}
+
+// TC returns a concrete error type: a nil *tr.Err stored in an error result is a non-nil error.
+func TC(i int) (int, *tr.Err) {
+	tr.Hit("tconv1")
+	return i + 6, nil
+}
+
 func Pre(d *D, s *S) error  { return tr.HitErr("pre") }
 func Post(d *D, s *S) error { return tr.HitErr("post") }
 `
 
 type c07Meta struct {
-	Present []int // pre, conv1, conv2, nconv1, nconv2, ge1, post
+	Present []int // pre, conv1, conv2, nconv1, nconv2, ge1, post, nnconv1 (depth 2), tconv1 (concrete error type)
 	Style   int
 	DstPtr  int
 	MErr    int
 	Sites   []string
 }
 
-var c07SiteNames = []string{"pre", "conv1", "conv2", "nconv1", "nconv2", "ge1", "post"}
-var c07SiteNotes = []string{":preprocess Pre", ":conv C1 A X", ":conv C2 B Y", ":conv NC C M.A", ":conv NC2 A M.C", ":map GE() Z", ":postprocess Post"}
+var c07SiteNames = []string{"pre", "conv1", "conv2", "nconv1", "nconv2", "ge1", "post", "nnconv1", "tconv1"}
+var c07SiteNotes = []string{":preprocess Pre", ":conv C1 A X", ":conv C2 B Y", ":conv NC C M.A", ":conv NC2 A M.C", ":map GE() Z", ":postprocess Post", ":conv NNC B M.L.W", ":conv TC C W"}
 
 func familyC07() []*scen.Cell {
 	var cells []*scen.Cell
-	scen.Odometer([]int{2, 2, 2, 2, 2, 2, 2, 2, 2, 2}, func(d []int) {
-		present := append([]int(nil), d[:7]...)
+	scen.Odometer([]int{2, 2, 2, 2, 2, 2, 2, 2, 2, 2, 2, 2}, func(d0 []int) {
+		// digits: 7 classic sites, depth-2 site, typed-error site, style, dstptr, merr
+		d := append(append([]int(nil), d0[:7]...), d0[9], d0[10], d0[11])
+		present := append(append([]int(nil), d0[:7]...), d0[7], d0[8])
+		if d0[8] == 1 && (d0[7] == 1 || d0[0]+d0[6] > 0) {
+			return // the typed-error site is combined with converters only
+		}
 		k := 0
 		for _, p := range present {
 			k += p
@@ -120,7 +147,7 @@ func familyC07() []*scen.Cell {
 		}
 		setup := scen.SetupFile(false, c07Decls, nil, []scen.MethodDecl{{Notations: notes, Sig: "Conv(*S) " + res}})
 		setup = strings.Replace(setup, "package x\n", "package x\n\nimport \"example.com/m/tr\"\n", 1)
-		cells = append(cells, &scen.Cell{ID: "c07_" + scen.DigitsID(d), Family: "C07-fault-plans", Files: map[string]string{"setup.go": setup}, Meta: m})
+		cells = append(cells, &scen.Cell{ID: "c07_" + scen.DigitsID(d0), Family: "C07-fault-plans", Files: map[string]string{"setup.go": setup}, Meta: m})
 	})
 	return cells
 }
@@ -128,7 +155,7 @@ func familyC07() []*scen.Cell {
 func init() {
 	register("C07", "fault_enumeration", func(e *Env) {
 		cells := familyC07()
-		e.Rep.Rule("functions with k = 1..5 error-capable call sites drawn from {preprocess hook, two top-level :conv, two nested-path :conv, :map of an error-returning getter, postprocess hook} (all 119 subsets of size 1..5) x style {return, arg} x destination {value, pointer} x method {with, without error result}; " +
+		e.Rep.Rule("functions with k = 1..5 error-capable call sites drawn from {preprocess hook, two top-level :conv, two nested-path :conv, :map of an error-returning getter, postprocess hook} (plus a depth-2 nested :conv and a converter whose error result is a concrete type; all subsets of size 1..5) x style {return, arg} x destination {value, pointer} x method {with, without error result}; " +
 			"dynamic: every function with an error result is run under ALL 2^k subsets of failing sites; each site returns its own sentinel error; oracle: with i the first site in the observed trace whose bit is set, the function returns exactly that sentinel and the trace ends at i; no executed site failing => nil error; " +
 			"static: a method without error result must be rejected or leave the path unmatched - an accepted output must not call any error-returning site; non-trivial = fault plan with a failing site")
 		br, err := e.newBehaveRunner()
@@ -154,7 +181,7 @@ func init() {
 					return nil
 				}
 				var fs []report.Finding
-				for _, fn := range []string{"C1(", "C2(", "NC(", "NC2(", ".GE()", "Pre(", "Post("} {
+				for _, fn := range []string{"C1(", "C2(", "NC(", "NC2(", "NNC(", ".GE()", "Pre(", "Post("} {
 					body := bodyOnly(o.Out)
 					if strings.Contains(body, fn) {
 						fs = append(fs, report.Finding{Key: "C07|error-site-in-function-without-error-result|" + strings.Trim(fn, "(."), What: "method has no error result but the generated function calls the error-returning " + fn + ")"})
@@ -163,6 +190,12 @@ func init() {
 				t.Outcome("no-error-result: accepted")
 				t.Family("C07-static", true, true)
 				return fs
+			}
+			if o.Res.Exit != 0 && m.Present[8] == 1 {
+				// a callee whose error result is a concrete type may be refused: refusing is one way of not wiring it
+				t.Family("C07-typed-error", false, true)
+				t.Outcome("typed-error: rejected")
+				return nil
 			}
 			if o.Res.Exit != 0 {
 				t.Family(o.Cell.Family, false, false)
